@@ -229,6 +229,7 @@ typedef struct filerec_t {
     char      *path;        /* name of file */
     hdf_file_t file;        /* either file descriptor or pointer */
     uint16     maxref;      /* highest ref in this file */
+    uint16     lastref;     /* ref Hnewref handed out last (0: none yet); where its search goes on */
     int        access;      /* access mode */
     int        refcount;    /* reference count / times opened */
     int        attach;      /* number of access elts attached */
